@@ -2,7 +2,7 @@
 """tools/seed_recheck.py [id ...] — re-run every claimed check against each kept seeded change (scratch copy of /repo + patch) and update meta.json"""
 import json, os, shutil, subprocess, sys, tempfile
 ROOT = '/verif'
-ids = sys.argv[1:] or sorted(os.listdir(os.path.join(ROOT, 'seeded')))
+ids = sys.argv[1:] or sorted(i for i in os.listdir(os.path.join(ROOT, 'seeded')) if not i.startswith('_'))
 claimed = [c['property_id'] for c in json.load(open(os.path.join(ROOT, 'MANIFEST.json')))['checks']]
 rows = []
 for sid in ids:
